@@ -301,7 +301,7 @@ func runC14(c *report.Ctx) {
 			ok := false
 			an.Instrs(child, func(in ssa.Instruction) {
 				if r, isRet := in.(*ssa.Return); isRet && len(r.Results) == 2 {
-					if u, isU := r.Results[1].(*ssa.UnOp); isU && u.X == ssa.Value(sent) {
+					if u, isU := an.RetOperand(r, 1).(*ssa.UnOp); isU && u.X == ssa.Value(sent) {
 						gs := p.GuardsOf(r)
 						priv := an.AnyAtom(gs, func(a an.Atom) bool {
 							return a.Op == token.ILLEGAL && !a.Truth && p.Desc(a.X) == "ExtendedKey.isPrivate"
